@@ -523,6 +523,35 @@ type Input struct {
 	// all, Table(t).Where(..).[Select][Omit].Updates(map)
 	View     []int `json:"view,omitempty"`
 	NoSchema bool  `json:"no_schema,omitempty"`
+	// Prior: map updates made EARLIER through the same handle (the chain value the measured finisher is called on);
+	// the table is restored in between, so that the diff shows what the measured finisher alone writes
+	Prior []PriorOp `json:"prior,omitempty"`
+	// Patch: updates_struct / update_columns_struct: the value handed to Updates / UpdateColumns is a struct of
+	// ANOTHER type than the Model (a patch / DTO type mapped onto the same columns): the key plus the listed fields
+	// of the table's type, each with its OWN permission tags
+	Patch []PatchF `json:"patch,omitempty"`
+}
+type PriorOp struct {
+	Kind string `json:"kind"` // update | updates_map | update_column | update_columns_map
+	Row  Row    `json:"row"`
+}
+type PatchF struct {
+	Field int    `json:"field"`
+	Dash  string `json:"dash"`
+	RO    string `json:"ro"`
+	RW    string `json:"rw"`
+}
+
+// patchOf: the type of the value handed to Updates / UpdateColumns (Input.Patch), nil fields = the table's type
+func patchOf(in Input) TDesc {
+	t := typeOf(in)
+	fs := []FDesc{t.Fields[0]}
+	for _, pf := range in.Patch {
+		f := t.Fields[pf.Field]
+		f.Dash, f.RO, f.RW, f.DBDef, f.LitDef = pf.Dash, pf.RO, pf.RW, false, false
+		fs = append(fs, f)
+	}
+	return dynType(t.Table+"_patch", fs)
 }
 type Cell struct {
 	Row  int64  `json:"row"`
@@ -541,6 +570,7 @@ type Obs struct {
 	Err    string `json:"err"`
 	RA     int64  `json:"ra"`
 	Parsed []PF   `json:"parsed"`
+	VParsed []PF  `json:"vparsed,omitempty"` // the patch type's fields as gorm parsed them
 	Setup  string `json:"setup_err,omitempty"`
 }
 
@@ -777,8 +807,11 @@ func itemString(t TDesc, s SItem) string {
 	return "nosuch"
 }
 
-func buildStruct(t TDesc, r Row) reflect.Value {
-	p := reflect.New(t.Type)
+func buildStruct(t TDesc, r Row) reflect.Value { return buildStructAs(t.Type, t, r) }
+
+// buildStructAs: the payload as a value of Go type [typ] (the table's type or a patch type over the same field names)
+func buildStructAs(typ reflect.Type, t TDesc, r Row) reflect.Value {
+	p := reflect.New(typ)
 	v := p.Elem()
 	v.FieldByName("ID").SetUint(uint64(r.ID))
 	for _, pv := range r.PV {
@@ -886,6 +919,23 @@ func run(e *env, in Input) (o Obs) {
 		}
 	}
 
+	if in.Patch != nil {
+		vt := patchOf(in)
+		st := &gorm.Statement{DB: e.db, Table: vt.Table}
+		if err := st.Parse(reflect.New(vt.Type).Interface()); err != nil {
+			o.Setup = err.Error()
+			return o
+		}
+		for _, f := range vt.Fields {
+			pf := st.Schema.FieldsByName[f.Name]
+			if pf == nil {
+				o.Setup = "gorm parsed no patch field " + f.Name
+				return o
+			}
+			o.VParsed = append(o.VParsed, PF{f.Name, pf.DBName, pf.Creatable, pf.Updatable, pf.Readable})
+		}
+	}
+
 	tx := e.db.Session(&gorm.Session{})
 	if t.Dynamic {
 		tx = tx.Table(t.Table)
@@ -955,6 +1005,35 @@ func run(e *env, in Input) (o Obs) {
 			began.Rollback()
 		}
 	}()
+	mapUpdate := func(kind string, row Row) *gorm.DB {
+		switch kind {
+		case "update", "update_column":
+			pv := row.PV[0]
+			f := t.Fields[pv.Field]
+			k := f.Col
+			if pv.Spell == "field" {
+				k = f.Name
+			}
+			if kind == "update" {
+				return tx.Update(k, formed(pv, mapValue(f, pv.Field, pv)))
+			}
+			return tx.UpdateColumn(k, formed(pv, mapValue(f, pv.Field, pv)))
+		case "updates_map":
+			return tx.Updates(buildMap(t, row))
+		}
+		return tx.UpdateColumns(buildMap(t, row))
+	}
+	for _, pr := range in.Prior {
+		// an earlier write through the same handle; the table is put back afterwards
+		if r := mapUpdate(pr.Kind, pr.Row); r.Error != nil {
+			o.Setup = "prior update failed: " + r.Error.Error()
+			return o
+		}
+		if err := e.restore(t); err != nil {
+			o.Setup = err.Error()
+			return o
+		}
+	}
 	var res *gorm.DB
 	switch in.Kind {
 	case "create":
@@ -1058,6 +1137,9 @@ func run(e *env, in Input) (o Obs) {
 		res = tx.UpdateColumn(k, formed(pv, mapValue(f, pv.Field, pv)))
 	case "updates_struct", "update_columns_struct":
 		p := buildStruct(t, in.Rows[0])
+		if in.Patch != nil {
+			p = buildStructAs(patchOf(in).Type, t, in.Rows[0])
+		}
 		var arg interface{} = p.Elem().Interface()
 		if in.Ptr {
 			arg = p.Interface()
@@ -1308,7 +1390,16 @@ func term(in Input, o Obs) string {
 			}
 			return lib.App("MStruct", lib.ZList([]int64{in.ModelKey}))
 		}(), where,
-		lib.ListOf(o.Cells, gCell), lib.Bool(o.Err != ""), lib.ListOf(o.Parsed, gPF), lib.Bool(o.Setup != ""))
+		func() string { // the value's own type (a patch struct), if it is not the model's
+			if in.Patch == nil {
+				return "None"
+			}
+			return "(Some " + lib.ListOf(patchOf(in).Fields, gField) + ")"
+		}(),
+		lib.ListOf(in.Prior, func(pr PriorOp) string {
+			return lib.Pair(lib.Bool(pr.Kind == "update_column" || pr.Kind == "update_columns_map"), gRow(t, pr.Row, true))
+		}),
+		lib.ListOf(o.Cells, gCell), lib.Bool(o.Err != ""), lib.ListOf(o.Parsed, gPF), lib.ListOf(o.VParsed, gPF), lib.Bool(o.Setup != ""))
 }
 
 // ---- generation ------------------------------------------------------------------------------------
@@ -1800,6 +1891,40 @@ func genInput(r *lib.Rng, edge bool, dyn *Input) Input {
 			}
 		}
 	}
+	// a struct update whose value is of ANOTHER struct type than the Model (1 in 3 of the struct updates, single-key
+	// types): a patch type over the same columns; tracked time fields keep the model's tags, a data field is dropped
+	// (1/5) or carries no tag, the model's tags or freshly drawn ones
+	if (in.Kind == "updates_struct" || in.Kind == "update_columns_struct") && !comp && len(in.Rows) == 1 && r.Chance(1, 3) {
+		var keep []PV
+		in.Patch = []PatchF{}
+		for _, pv := range in.Rows[0].PV {
+			f := t.Fields[pv.Field]
+			pf := PatchF{Field: pv.Field, Dash: f.Dash, RO: f.RO, RW: f.RW}
+			if f.Auto == "" {
+				switch r.Intn(5) {
+				case 0:
+					continue
+				case 1:
+					pf.Dash, pf.RO, pf.RW = "", "", ""
+				case 2:
+				default:
+					pf.Dash, pf.RO, pf.RW = "", "", ""
+					if r.Chance(1, 6) {
+						pf.Dash = lib.Pick(r, []string{"-", "all", "migration"})
+					}
+					if r.Chance(1, 3) {
+						pf.RO = lib.Pick(r, []string{"->", "->:false"})
+					}
+					if r.Chance(1, 2) {
+						pf.RW = lib.Pick(r, []string{"<-", "create", "update", "false", "create,update"})
+					}
+				}
+			}
+			in.Patch = append(in.Patch, pf)
+			keep = append(keep, pv)
+		}
+		in.Rows[0].PV = keep
+	}
 	// dimensions independent of the finisher
 	in.NoReturn = r.Chance(1, 3)
 	// a statement-cloning step between the chain and the finisher; more often before the finishers that extend the
@@ -1835,6 +1960,44 @@ func genInput(r *lib.Rng, edge bool, dyn *Input) Input {
 		// neither a key in the model value nor a condition: ErrMissingWhereClause, nothing written
 		in.ModelKey, in.ModelLoc, in.ModelSlice, in.HasWhere, in.WhereIDs = 0, 0, nil, false, nil
 	}
+	// handle reuse: 1-2 earlier map updates (Update / Updates(map) / UpdateColumn / UpdateColumns(map), own keys and
+	// values) through the very handle the measured update is called on, 1 update in 3.  Not inside an open transaction
+	// (the table is put back through the only connection) and not on a statement without any condition (the
+	// refused earlier update would leave its error on the handle)
+	unconditional := in.ModelKey == 0 && in.ModelLoc == 0 && !in.HasWhere
+	for _, k := range in.ModelSlice {
+		unconditional = unconditional && k == 0
+	}
+	// Under RETURNING an update scans the returned rows into the Model value (that is what the clause is for), so an
+	// earlier update would hand the measured one a different model key: there the Model carries a (single) key already
+	keyed := in.ModelSlice == nil && in.ModelKey != 0 && !comp
+	if isUpd && in.CloneStep != "tx" && !unconditional && (!in.Returning || keyed) && r.Chance(1, 3) {
+		mapRowUpdate = true
+		for i, n := 0, r.Range(1, 2); i < n; i++ {
+			pk := lib.Pick(r, []string{"update", "update", "updates_map", "update_column", "update_columns_map"})
+			// a column update sets SkipHooks on the handle's statement for good: only before column updates
+			if in.Kind != "update_column" && in.Kind != "update_columns_struct" && in.Kind != "update_columns_map" {
+				pk = lib.Pick(r, []string{"update", "update", "updates_map"})
+			}
+			n := 1
+			if pk == "updates_map" || pk == "update_columns_map" {
+				n = r.Range(1, 3)
+			}
+			row := mapRow(r, t, 0, n, false)
+			for j := range row.PV {
+				if !inView(in, row.PV[j].Field) {
+					row.PV[j].Spell = "col"
+				}
+			}
+			if len(row.PV) > 0 {
+				in.Prior = append(in.Prior, PriorOp{pk, row})
+			}
+		}
+		mapRowUpdate = false
+		if len(in.Prior) > 0 && keyed && !in.NoReturn && !in.NoSchema && r.Bool() {
+			in.Returning = true // the handle carries Clauses(clause.Returning{}) through all of its updates
+		}
+	}
 	return in
 }
 
@@ -1865,6 +2028,18 @@ func shape(in Input) string {
 	}
 	fmt.Fprintf(&sb, "|nr%v mp%v bm%s rt%v cl%s%s v%v ns%v", in.NoReturn, in.MapPtr, in.BatchMode, in.Returning, in.CloneStep, in.CloneAt, in.View, in.NoSchema)
 	fmt.Fprintf(&sb, "|k%d.%d%v|w%v%d|c%v", in.ModelKey, in.ModelLoc, in.ModelSlice, in.HasWhere, len(in.WhereIDs), in.Cols)
+	for _, pr := range in.Prior {
+		fmt.Fprintf(&sb, "|pr:%s", pr.Kind)
+		for _, pv := range pr.Row.PV {
+			fmt.Fprintf(&sb, "%d,", pv.Field)
+		}
+	}
+	if in.Patch != nil {
+		sb.WriteString("|patch:")
+		for _, pf := range in.Patch {
+			fmt.Fprintf(&sb, "%d%s%s%s,", pf.Field, pf.Dash, pf.RO, pf.RW)
+		}
+	}
 	return sb.String()
 }
 
@@ -1962,6 +2137,12 @@ func main() {
 		out.Count("changed_cells", fmt.Sprint(len(o.Cells)))
 		out.Count("dialect_returning", fmt.Sprint(!in.NoReturn))
 		out.Count("clone_step", in.CloneStep+"@"+in.CloneAt)
+		if len(in.Prior) > 0 {
+			out.Count("handle_reuse", fmt.Sprintf("%d earlier updates, returning=%v", len(in.Prior), in.Returning))
+		}
+		if in.Patch != nil {
+			out.Count("patch_type_value", in.Kind)
+		}
 		if in.NoSchema {
 			out.Count("raw_keys", "no schema: "+in.Kind)
 		} else if in.View != nil {
@@ -2067,6 +2248,12 @@ func main() {
 		}
 		if in.View != nil || in.NoSchema {
 			kind = "raw-keys"
+		}
+		if in.Patch != nil {
+			kind = "patch-type"
+		}
+		if len(in.Prior) > 0 {
+			kind = "handle-reuse"
 		}
 		add(kind, in)
 	}
